@@ -237,13 +237,6 @@ theorem editHistory_undo_bmp' (S : Schema) (hS : S ∈ domFamilySchemas) (doc : 
     (family_textStableC _ (domFamily_sub _ hS)) (family_closable _ (domFamily_sub _ hS)) doc ops tr' hd hn hb
     hall h hres
 
-/-- `PM.C04.fit_around_gapFitsBack` with its schema guards discharged for the bundled schema family -/
-theorem fit_around_gapFitsBack (S : Schema) (hS : S ∈ familySchemas) (doc doc' : Node) (f t : Nat) (req : Slice)
-    (hd : S.checkNode doc = true) (hn : fnorm doc.kids = true) (hb : bmpDoc doc = true) (hft : f ≤ t) (s : Step)
-    (hr : replaceStep S doc f t req = .ok (some s)) (ha : S.apply s doc = .ok doc') :
-    AroundFitsBack S s doc :=
-  PM.C04.fit_around_gapFitsBack S (textLoop_of_B _ (family_textLoop _ hS)) doc doc' f t req hd hn hb hft s hr ha
-
 /-- `PM.C04.editResidual'_of_hyps` with its schema guards discharged for the bundled schema family -/
 theorem editResidual'_of_hyps (S : Schema) (hS : S ∈ familySchemas) (op : Op) (tr tr1 : Tr)
     (hlen : tr.steps.length = tr.docs.length) (hI : FamilyInv S tr.doc) (hb : bmpDoc tr.doc = true)
